@@ -138,4 +138,89 @@ theorem implMatch_iff_glob (p s : List Char) : implMatch true p s = true ↔ Glo
     exact ⟨fun _ => glob_self_of_nostar p h1, fun _ => rfl⟩
   · exact reMatch_iff_glob p s
 
+/-! ### the statement's own wording: literal pieces in order with arbitrary gaps -/
+
+/-- `l0 ++ x1 ++ l1 ++ ... ++ xn ++ ln` for pieces `l0..ln` and gaps `x1..xn` -/
+def assemble : List (List Char) → List (List Char) → Option (List Char)
+  | [l], [] => some l
+  | l :: l' :: ls, x :: xs => (assemble (l' :: ls) xs).map fun r => l ++ x ++ r
+  | _, _ => none
+
+theorem assemble_cons_head (c : Char) (l0 : List Char) (ls xs : List (List Char)) :
+    assemble ((c :: l0) :: ls) xs = (assemble (l0 :: ls) xs).map (c :: ·) := by
+  cases ls with
+  | nil => cases xs <;> simp [assemble]
+  | cons l' ls' =>
+    cases xs with
+    | nil => simp [assemble]
+    | cons x xs' =>
+      simp only [assemble, Option.map_map]
+      congr 1
+
+theorem glob_star_iff (p s : List Char) : Glob ('*' :: p) s ↔ ∃ x r, s = x ++ r ∧ Glob p r := by
+  constructor
+  · intro h
+    induction s with
+    | nil =>
+      cases h with
+      | starZero h' => exact ⟨[], [], rfl, h'⟩
+    | cons a s' ih =>
+      cases h with
+      | starZero h' => exact ⟨[], a :: s', rfl, h'⟩
+      | starMore h' =>
+        obtain ⟨x, r, hs, hr⟩ := ih h'
+        exact ⟨a :: x, r, by rw [hs]; rfl, hr⟩
+      | lit hne _ => exact absurd rfl hne
+  · rintro ⟨x, r, rfl, hr⟩
+    induction x with
+    | nil => exact Glob.starZero hr
+    | cons a x ih => exact Glob.starMore ih
+
+/-- A pattern matches a name exactly when the pattern's literal pieces (the pattern split at
+'*') occur in the name in order, anchored at both ends, with arbitrary text in the gaps. -/
+theorem glob_iff_pieces (p s : List Char) : Glob p s ↔ ∃ xs, assemble (splitStar p) xs = some s := by
+  induction p generalizing s with
+  | nil =>
+    constructor
+    · intro h; cases h; exact ⟨[], rfl⟩
+    · rintro ⟨xs, h⟩
+      cases xs <;> simp [splitStar, assemble] at h
+      subst h; exact Glob.nil
+  | cons c cs ih =>
+    have hne := splitStar_ne_nil cs
+    cases hsp : splitStar cs with
+    | nil => exact absurd hsp hne
+    | cons l0 ls =>
+      by_cases hc : c = '*'
+      · subst hc
+        have e : splitStar ('*' :: cs) = [] :: l0 :: ls := by simp [splitStar, hsp]
+        rw [e, glob_star_iff]
+        constructor
+        · rintro ⟨x, r, rfl, hr⟩
+          obtain ⟨xs, hxs⟩ := (ih r).mp hr
+          rw [hsp] at hxs
+          exact ⟨x :: xs, by simp [assemble, hxs]⟩
+        · rintro ⟨xs, h⟩
+          cases xs with
+          | nil => simp [assemble] at h
+          | cons x xs' =>
+            simp only [assemble, List.nil_append, Option.map_eq_some_iff] at h
+            obtain ⟨r, hr, rfl⟩ := h
+            exact ⟨x, r, rfl, (ih r).mpr ⟨xs', by rw [hsp]; exact hr⟩⟩
+      · rw [splitStar_lit c cs l0 ls hc hsp]
+        constructor
+        · intro h
+          cases h with
+          | lit _ h' =>
+            obtain ⟨xs, hxs⟩ := (ih _).mp h'
+            rw [hsp] at hxs
+            exact ⟨xs, by rw [assemble_cons_head, hxs]; rfl⟩
+          | starZero _ => exact absurd rfl hc
+          | starMore _ => exact absurd rfl hc
+        · rintro ⟨xs, h⟩
+          rw [assemble_cons_head] at h
+          simp only [Option.map_eq_some_iff] at h
+          obtain ⟨r, hr, rfl⟩ := h
+          exact Glob.lit hc ((ih r).mpr ⟨xs, by rw [hsp]; exact hr⟩)
+
 end Setec.Glob
